@@ -353,7 +353,12 @@ static int rec_check(vf_report *rep, rec *R, uint8_t *dst, const char *where,
     R->reported = 0;
     R->bits = 0;
     if (R->written == 0) {
-        vf_discard("encoder returned 0");
+        /* no allocation failure is injected here and the input is inside the
+         * codec's documented domain: "0 bytes written" is not the truth */
+        vf_fail(rep, S_meta, "size",
+                "%s n=%zu%s: encoder returned 0 for an array inside its "
+                "documented domain",
+                m_name[k], n, where);
         return 0;
     }
     if (R->written > c13_bound(n) - 64) {
